@@ -19,7 +19,8 @@ RULE = (
     "lambda_stmt. Oracle-only families (outside the Coq model): a date closure value used directly AND through .year/.month/"
     ".day; ORM entities (mapped class, aliased()) as closure variables of a generic lambda; a tracked literal next to a "
     "literal inside loader-option criteria. One case in five carries ONE shape outside the guard (None operand/limit, helper with own closure, "
-    "truth test of a bound cell, list index): the model is faithful there too; the oracle hit is a known finding. "
+    "truth test of a bound cell) or a refused one (truth test alone, list index alone): the model is faithful there too; the "
+    "oracle hit is a known finding. "
     "non-trivial = the history re-uses a code object with different closure values at least twice"
 )
 TRUSTED = [
@@ -41,13 +42,14 @@ LEVEL_TEXT = (
     "Coq proof over an executable model of the lambda machinery: for every history of '+=' chains of lambdas with arbitrary "
     "closure values inside the guard, every construction equals the directly built statement or is the documented "
     "InvalidRequestError (state invariant over analyses + skeleton cache; skeleton determined by the key; bound values "
-    "re-extracted from the current closure); structural and function-code changes change the key. Five refutations outside "
+    "re-extracted from the current closure); structural and function-code changes change the key. Four refutations outside "
     "the guard, each confirmed on the implementation: None operand, None limit, helper function with its own closure "
-    "(stale VALUE), bound cell also tested for truth (stale STRUCTURE), list index (TypeError)."
+    "(stale VALUE), bound cell also tested for truth (stale STRUCTURE). The list-index TypeError is repaired (3d569da): list "
+    "items are bind paths inside the guard of the main theorem."
 )
 LEVEL_NOTE = (
     "partial in breadth: the modelled body shapes are comparisons, IN, column/table cells, helper calls, LIMIT, truth test, "
-    "list index on Core select(); ORM lambda criteria (with_loader_criteria), track_on / track_closure_variables=False / "
+    "list index (bind path) on Core select(); ORM lambda criteria (with_loader_criteria), track_on / track_closure_variables=False / "
     "track_bound_values=False options, globals used as bound values, attribute paths (obj.attr) and DeferredLambdaElement "
     "are not modelled. Bytecode-level closure analysis is CPython behaviour (trusted)."
 )
@@ -190,8 +192,14 @@ def _gen_body(rng, code, head, helpers, unsafe):
                     i = b.cell({"role": "int"})
                 b.uses.append([1, t, c, rng.randint(0, 3), i])
         elif k < 0.45:
-            i = b.cell({"role": "list"})
-            b.uses.append([2, t, c, i])
+            if rng.random() < 0.35:
+                # the list is a bound value (IN) AND one of its items is a second bound value (bind path)
+                i = b.cell({"role": "list", "min": 2, "nonone": True})
+                b.uses.append([2, t, c, i])
+                b.uses.append([9, rng.randint(0, 1), 3 - c, rng.randint(0, 3), i, rng.randint(0, 1)])
+            else:
+                i = b.cell({"role": "list"})
+                b.uses.append([2, t, c, i])
         elif k < 0.58:
             i = b.cell({"role": "col"})
             b.uses.append([3, i, rng.randint(0, 3), rng.randint(0, 4)])
@@ -237,7 +245,7 @@ def _gen_value(rng, role):
         return V_str(rng.choice(["s0", "s1", "s2", ""]))
     if r == "list":
         n = rng.randint(role.get("min", 0), 3)
-        return V_list([V_none() if rng.random() < 0.1 and not role.get("min") else V_int(rng.randint(0, 3)) for _ in range(n)])
+        return V_list([V_none() if rng.random() < 0.1 and not role.get("min") else V_int(rng.randint(0, 3)) for _ in range(n)])  # "min" lists are indexed: no None items
     if r == "col":
         return V_col(rng.randint(0, 1), rng.randint(1, 2))
     if r == "tab":
@@ -829,7 +837,7 @@ def match_finding(c, what):
                     return "C17-shared-truth-test-stale"
         return None
     if mode == "index" and "TypeError" in what:
-        return "C17-list-index-typeerror"
+        return "C17-list-index-typeerror"  # status "fixed" (3d569da): a hit means the repair was reverted
     return None
 
 
